@@ -67,6 +67,15 @@ def run(chk):
         for d in decoys:
             for _ in range(5):
                 cases.append((argen.render(d), role, str(key))); tags.append("decoy-members")
+        # decoys behind bytes the ar reader cannot make sense of, or cut off: a second control / data member is in the file
+        # all the same, so loading or verification must fail
+        whole = argen.render(ms)
+        for junk in (b"\0" * 64, b"\n" * 60, b" " * 60, b"x" * 59, whole[8:68].replace(b"`\n", b"XX")):
+            for dec in (debpkg.member(b"control.tar.xz", b"decoy"), debpkg.member(b"data.tar", b"decoy")):
+                cases.append((whole + junk + argen.render([dec])[8:], role, str(key))); tags.append("decoy-members")
+        for dec in (b"data.tar", b"control.tar.gz", b"data.tar.zst"):
+            cut = dict(debpkg.member(dec, b"x" * 10), size_text=b"100")
+            cases.append((argen.render(ms + [cut]), role, str(key))); tags.append("decoy-members")
         # unsigned: no _gpg member
         cases.append((argen.render(ms[:3]), role, str(key))); tags.append("no-signature-member")
     for fbuf, role, key in forged_pkgs:
